@@ -6,6 +6,7 @@ package main
 import (
 	"fmt"
 	"strings"
+	"sync"
 
 	"github.com/awalterschulze/gominikanren/micro"
 	"github.com/awalterschulze/gominikanren/sexpr/ast"
@@ -56,6 +57,9 @@ func runC08(cfg *Config) *Report {
 	cf.b.WriteString(coqRelLib())
 	r := newRand(cfg.Seed)
 	pg := &progGen{r: r, allowNon: true, rels: []int{1, 2, 3, 4, 5, 7, 8, 10}}
+	if cfg.Only < 0 {
+		c08Concurrent(rep)
+	}
 	for i := 0; i < cfg.N; i++ {
 		kind := r.Intn(13)
 		nv := 1 + r.Intn(7)
@@ -170,4 +174,63 @@ func runC08(cfg *Config) *Report {
 	}
 	cf.write(cfg.Out)
 	return rep
+}
+
+// c08Concurrent: reification is a function of the answer.  Answers with k distinct unbound variables (k = 1..48, growing, so that
+// every round needs a name no earlier round used) are reified from 8 goroutines at once, released together; every goroutine must
+// see (_0 ... _k-1 _0 ... _k-1), and so must a single goroutine afterwards.
+func c08Concurrent(rep *Report) {
+	const G = 8
+	mk := func(k int) (*micro.State, string) {
+		var l *ast.SExpr
+		want := make([]string, 2*k)
+		for j := 2*k - 1; j >= 0; j-- {
+			l = ast.Cons(micro.Var(uint64(1+j%k)), l)
+			want[j] = fmt.Sprintf("_%d", j%k)
+		}
+		return &micro.State{Substitutions: micro.Substitutions{{Key: 0, Value: l}}, Counter: uint64(k + 1)}, "(" + strings.Join(want, " ") + ")"
+	}
+	for k := 1; k <= 48; k++ {
+		st, want := mk(k)
+		start := make(chan struct{})
+		var wg sync.WaitGroup
+		got := make([]string, G)
+		for g := 0; g < G; g++ {
+			wg.Add(1)
+			go func(g int) {
+				defer wg.Done()
+				defer func() {
+					if r := recover(); r != nil {
+						got[g] = fmt.Sprint("panic: ", r)
+					}
+				}()
+				<-start
+				out := micro.MKReify([]*micro.State{st})
+				if len(out) == 1 {
+					got[g] = out[0].String()
+				}
+			}(g)
+		}
+		close(start)
+		wg.Wait()
+		for g := 0; g < G; g++ {
+			if got[g] != want {
+				rep.violate(-1, "reify-depends-on-concurrent-calls", fmt.Sprintf("MKReify of an answer with %d distinct unbound variables (each occurring twice), from %d goroutines at once", k, G),
+					fmt.Sprintf("goroutine %d got %s, want %s", g, cutStr(got[g], 300), cutStr(want, 300)))
+				return
+			}
+		}
+	}
+	st, want := mk(48)
+	if out := micro.MKReify([]*micro.State{st}); len(out) != 1 || out[0].String() != want {
+		rep.violate(-1, "reify-depends-on-concurrent-calls", "MKReify of an answer with 48 distinct unbound variables on one goroutine, after the concurrent rounds", fmt.Sprintf("got %v, want %s", out, want))
+	}
+	rep.hist("directed: reification from 8 goroutines at once, 1..48 variables")
+}
+
+func cutStr(s string, n int) string {
+	if len(s) > n {
+		return s[:n] + "..."
+	}
+	return s
 }
